@@ -37,6 +37,9 @@ POP = [
     dict(type="relationship", spec_version="2.1", id=REL, created=T2, modified=T3, relationship_type="uses", source_ref=M1, target_ref=IDY,
          external_references=[{"source_name": "cve", "external_id": "CVE-2"}], granular_markings=[{"marking_ref": RED, "selectors": ["relationship_type"]}]),
     dict(type="file", spec_version="2.1", id="file--" + U + "9", name="f", extensions={"pdf-ext": {"version": "1.7", "is_optimized": False}}),
+    # type names that extend another stored type name (directory / file-name matching in the filesystem source)
+    dict(type="malware-analysis", spec_version="2.1", id="malware-analysis--" + U + "a", created=T1, modified=T2, product="alpha", result="benign", labels=["a"]),
+    dict(type="x-foo-bar", spec_version="2.1", id="x-foo-bar--" + U + "b", created=T1, modified=T1, name="beta"),
 ]
 TS_PROPS = {"created", "modified", "valid_from"}
 
@@ -267,7 +270,7 @@ def run_case(case, part):
             part.outcome("empty" if not gs else "all" if len(gs) == len(stored) else "proper-subset")
             if gs != exp:
                 missing, extra = exp - gs, gs - exp
-                only_unreg = all(i.startswith("x-foo--") for i, _ in (missing | extra))
+                only_unreg = all(i.startswith("x-foo") for i, _ in (missing | extra))
                 cul = culprit(w, store, specs)
                 rt = "/".join(sorted(set(routes))) if len(cul) == len(specs) else "any-route"
                 if only_unreg and len(cul) == 1 and cul[0][0] in TS_PROPS and isinstance(cul[0][2], str):
@@ -316,6 +319,51 @@ def run_case(case, part):
                 part.violation("C12/stores-disagree/%s" % feature(specs), "FileSystemSource (optimised) and MemorySource answer differently",
                                {"filters": case["filters"], "routes": [r.split("/")]}, sorted(a["mem"][r], key=str), sorted(a["fs"][r], key=str))
                 break
+    # the query handed over as ONE FilterSet object that is reused: first on a source with an attached filter, then on a plain source and on a composite over both
+    if len(specs) == 2:
+        from stix2 import CompositeDataSource
+        from stix2.datastore.filters import FilterSet
+        for store in ("mem", "fs"):
+            stored = w.stored[store]
+            for qs, at in ((specs[0], specs[1]), (specs[1], specs[0])):
+                try:
+                    exp_q = {k for k, v in stored if ref(qs, v) is True}
+                    exp_qa = {k for k, v in stored if ref(qs, v) is True and ref(at, v) is True}
+                except TypeError:
+                    continue
+                c = {"filters": [list(qs), list(at)], "routes": [["query-as-reused-FilterSet", "attached"]], "store": store}
+                try:
+                    fset = FilterSet([mk_filter(qs)])
+                    a_src, b_src = w.source(store), w.source(store)
+                    a_src.filters.add([mk_filter(at)])
+                    r1 = {key(o) for o in a_src.query(fset)}
+                    r2 = {key(o) for o in b_src.query(fset)}
+                    cds = CompositeDataSource()
+                    cds.add_data_sources([a_src, b_src])
+                    r3 = {key(o) for o in cds.query(fset)}
+                    r4 = {key(o) for o in b_src.query(fset)}
+                    n_after = len(list(fset))
+                except Exception as e:
+                    if isinstance(e, TypeError) and any(x[0] in TS_PROPS for x in (qs, at)):
+                        continue        # the listed string-property-of-unregistered-dict family is reported by the main loop
+                    part.violation("C12/query-raises/%s/reused-filterset" % type(e).__name__, "a type-consistent query raises", c, "answers", "%s: %s" % (type(e).__name__, str(e)[:200]))
+                    continue
+                part.transitions += 4
+                part.evaluations += 4
+                bad = [n for n, got, want in (("filtered-source", r1, exp_qa), ("plain-source-afterwards", r2, exp_q), ("composite-over-both", r3, exp_q), ("plain-source-again", r4, exp_q)) if got != want]
+                unreg = all(i.startswith("x-foo") for n, got, want in (("a", r1, exp_qa), ("b", r2, exp_q), ("c", r3, exp_q), ("d", r4, exp_q)) for i, _ in (got ^ want))
+                if bad and unreg and any(x[0] in TS_PROPS and isinstance(x[2], str) for x in (qs, at)):
+                    continue            # the listed string-timestamp-vs-dict-kept-object finding, reported by the main loop
+                if bad:
+                    part.outcome("reused-filterset:DIFFERS")
+                    part.violation("C12/%s/reused-filterset/%s" % (store, "+".join(bad)), "a FilterSet handed to one source changes what later queries with the same FilterSet return", c,
+                                   {"filtered-source": sorted(exp_qa, key=str), "others": sorted(exp_q, key=str)},
+                                   {"filtered-source": sorted(r1, key=str), "plain-source-afterwards": sorted(r2, key=str), "composite-over-both": sorted(r3, key=str)})
+                elif n_after != 1:
+                    part.outcome("reused-filterset:DIFFERS")
+                    part.violation("C12/%s/reused-filterset/callers-filterset-grew" % store, "querying adds the source's filters to the caller's FilterSet", c, 1, n_after)
+                else:
+                    part.outcome("reused-filterset:same")
     # conjunction = intersection of the parts, on the library's own answers (query route)
     if len(specs) >= 2:
         for store in ("mem", "fs"):
